@@ -25,7 +25,7 @@ JOBS = {"quick": 8, "thorough": 16}
 
 CONFIGS = [
     ["boxcox", {"bounds": [0, 2]}], ["boxcox", {}], ["boxcox", {"method": "pearsonr"}], ["log", {}],
-    ["detrend", {"degree": 1}], ["detrend", {"degree": 2}], ["detrend", {"degree": 0}], ["detrend_naive", {}],
+    ["detrend", {"degree": 1}], ["detrend", {"degree": 2}], ["detrend", {"degree": 0}], ["detrend_naive", {}], ["detrend", {"default": True}],
     ["deseason", {"sp": 2, "model": "additive"}], ["deseason", {"sp": 3, "model": "additive"}], ["deseason", {"sp": 4, "model": "multiplicative"}],
     ["deseason", {"sp": 7, "model": "additive"}], ["deseason", {"sp": 5, "model": "multiplicative"}], ["deseason", {"sp": 1, "model": "additive"}],
     ["cdeseason", {"sp": 3, "model": "additive"}], ["cdeseason", {"sp": 4, "model": "multiplicative"}],
@@ -267,6 +267,19 @@ def run_case(case, ctx):
             ctx.check("phase", _close(comp, exp, 1e-9), "phase:seasonal-component-not-at-training-phase:" + inner_kind,
                       "the seasonal component removed at time t is not seasonal_[(t - t0) mod sp] with t0 the training start",
                       stretch_start=a, sp=sp, gapped=case["gapped"], updates=case["updates"], got=comp[:6].tolist(), expected=exp[:6].tolist())
+            # ... and the figures themselves are those of the classical decomposition of the training series, counted from its start
+            # (statsmodels called directly; only while the figures are those of the first fit, and for the plain - not frame-wrapped - series)
+            if not case["updates"] and isinstance(y, pd.Series) and not (inner_kind == "cdeseason" and not bool(getattr(d, "is_seasonal_", True))):
+                try:
+                    from statsmodels.tsa.seasonal import seasonal_decompose
+                    full_seas = np.asarray(seasonal_decompose(np.asarray(y, dtype=float), model=model, period=sp, filt=None, two_sided=True, extrapolate_trend=0).seasonal)
+                    ref = np.array([full_seas[pp % sp] for pp in positions])
+                    ctx.check("phase", _close(comp, ref, 1e-9), "phase:seasonal-figures-not-those-of-the-training-decomposition:" + inner_kind,
+                              "the component removed at time t is not the seasonal figure the classical decomposition of the training series assigns to (t - t0) mod sp",
+                              training_length=len(y), sp=sp, remainder=len(y) % sp, got=comp[:6].tolist(), expected=ref[:6].tolist())
+                    ctx.tag("phase:independent-decomposition")
+                except Exception as e:  # noqa
+                    ctx.tag("phase:reference-decomposition-failed:" + type(e).__name__)
         if inner_kind == "cdeseason" and getattr(d, "is_seasonal_", None) is not None and not bool(d.is_seasonal_):
             ctx.check("phase", _close(np.asarray(zt, dtype=float), np.asarray(z, dtype=float), 1e-12), "phase:conditional-deseasonaliser-changes-non-seasonal-data",
                       "the conditional deseasonaliser changed data although its seasonality test found no seasonality")
